@@ -35,6 +35,9 @@ def sess_concat(seed, sep='\n'):
     if doc is None:
         return dp.finish_session(lines, evs, text, seed, {'concat'})
     base = session.snapshot(doc)
+    # BASE: the export without barlines (data lines are what C19 compares; invisible barlines export differently, finding D18)
+    evs.append(session.record_call(doc, {'op': 'dumps', 'args': session.dumps_args(exc=['BARLINES']), 'exact': False, 'role': 'base'}))
+    base_ev = len(evs)
     stage_of = {}
     k = 1
     for i, e in enumerate(lines):
@@ -44,7 +47,7 @@ def sess_concat(seed, sep='\n'):
         bounds = [0] + cuts + [len(lines)]
         frags = [texts[bounds[j]:bounds[j + 1]] for j in range(len(bounds) - 1)]
         contents = ['\n'.join(f) + ('' if sep == '\n' else '\n') for f in frags]
-        ev = {'ev': 'concat', 'cuts': cuts, 'sep': cps(sep), 'ends': [stage_of[b - 1] for b in bounds[1:]], 'nfrag': len(frags)}
+        ev = {'ev': 'concat', 'cuts': cuts, 'sep': cps(sep), 'ends': [stage_of[b - 1] for b in bounds[1:]], 'nfrag': len(frags), 'base': base_ev}
         try:
             dc, pairs = kp.concat(contents, separator=sep)
             ev['pairs'] = [[int(a), int(b)] for a, b in pairs]
@@ -79,7 +82,7 @@ def main():
         n = 60 if quick else 1200
         sess = docs.build_sessions(sess_concat, [a.seed * 1000003 + i for i in range(n)], sep='\n')
         sess += docs.build_sessions(sess_concat, [a.seed * 1000003 + i for i in range(n)], sep='')
-    docs.validate_sessions(run, sess)
+    docs.validate_sessions(run, sess, relevant=docs.relevant_for(run.pid))
     for s in sess:
         for e in s['log']:
             if e['ev'] == 'concat' and e['nfrag'] >= 2:
